@@ -292,6 +292,9 @@ func openTunnel(g *gwInstance, sc tunnelScript) (tclient, error) {
 	if sc.auth != "" {
 		hdr["Authorization"] = sc.auth
 	}
+	if sc.cookieHdr != "" {
+		hdr["Cookie"] = sc.cookieHdr
+	}
 	if sc.transport == "legacy" {
 		return legacyDial(g, sc.id, hdr)
 	}
